@@ -111,6 +111,13 @@ func drive(d *mon.Driver, replay string) int {
 			bl := baseLayouts[(lo/rchunk)%len(baseLayouts)]
 			plan = append(plan, planned{primary: true, c: mon.NewCase(fmt.Sprintf("lfs-random-%d", lo), "lfs", lfsCase{Base: bl, Paths: rp[lo:hi]})})
 		}
+		// paths into the prefix siblings of the base (names that extend the base's name), every base layout
+		sib := siblingPaths()
+		for _, bl := range baseLayouts {
+			for lo := 0; lo < len(sib); lo += chunk {
+				plan = append(plan, planned{primary: true, c: mon.NewCase(fmt.Sprintf("lfs-sibling-%s-%d", bl, lo), "lfs", lfsCase{Base: bl, Paths: sib[lo:min(lo+chunk, len(sib))]})})
+			}
+		}
 		// (b) virtual OS
 		vchunk := d.N(400, 3000)
 		for lo := 0; lo < ps.Count(); lo += vchunk {
